@@ -19,6 +19,7 @@ Definition K_DLOG_ED : N := 4.      (* 64 bytes: ed25519 dlog proof (two canonic
 Definition K_BLS_PROOF : N := 5.    (* 64 bytes: aggregate_sig::Proof (two BLS12-381 scalars) *)
 Definition K_UTF8 : N := 6.         (* any length: valid UTF-8 *)
 Definition K_CRED_ID : N := 7.      (* 48 bytes: credential registration id (G1 point) *)
+Definition K_ELGAMAL_PK : N := 8.   (* 48 bytes: elgamal public key of an anonymity revoker (G1 point) *)
 
 (** constants.rs *)
 Definition MAX_WASM_MODULE_SIZE : N := 8 * 65536.
@@ -179,8 +180,8 @@ Definition s_timeout_parameters :=
 Definition s_finalization_committee_parameters := STuple [SU32; SU32; s_amount_fraction].
 
 (** UpdatePayload (updates.rs): modelled variants.  Tags 1 (ProtocolUpdate: nested length frame
-    with three variable parts), 10, 11 (key updates), 12, 13 (anonymity revoker / identity provider
-    records), 24 (CreatePlt, CBOR) are covered by the direct oracles only. *)
+    whose last part is "the rest of the frame"), 13 (identity provider record), 24 (CreatePlt, CBOR)
+    are covered by the direct oracles only; 10, 11, 12 are added below ([update_payload_alts_all]). *)
 Definition update_payload_alts : list (N * schema) :=
   [(2, s_amount_fraction);
    (3, s_exchange_rate);
@@ -200,7 +201,38 @@ Definition update_payload_alts : list (N * schema) :=
    (21, s_gas_rewards_v1);
    (22, s_finalization_committee_parameters);
    (23, SU64)].
-Definition s_update_payload := SSum update_payload_alts.
+(** ** Governance key updates (updates.rs: RootUpdate, Level1Update, AuthorizationsV0/V1). *)
+Definition thr_le_len (v : gval) : bool :=   (* threshold <= number of keys *)
+  match v with VList [VList ks; VNum t] => t <=? len ks | _ => false end.
+(** AccessStructure: u16-counted strictly increasing set of key indices, non-zero threshold <= count. *)
+Definition s_access_structure :=
+  SRefine (PFun thr_le_len) (STuple [SSet BE 2 SU16; s_update_keys_threshold]).
+(** HigherLevelAccessStructure<Kind>: u16-counted list of keys, non-zero threshold <= count. *)
+Definition s_higher_level_access_structure :=
+  SRefine (PFun thr_le_len) (STuple [SVec BE 2 s_verify_key; s_update_keys_threshold]).
+(** AuthorizationsV0: keys, then the twelve access structures in declaration order. *)
+Definition s_authorizations_v0 := STuple (SVec BE 2 s_verify_key :: repeat s_access_structure 12).
+(** AuthorizationsV1 without / with the create_plt access structure (deserial_v1 / deserial_v2). *)
+Definition s_authorizations_v1 := STuple [s_authorizations_v0; s_access_structure; s_access_structure].
+Definition s_authorizations_v2 :=
+  STuple [s_authorizations_v0; s_access_structure; s_access_structure; s_access_structure].
+Definition s_root_update :=
+  SSum [(0, s_higher_level_access_structure); (1, s_higher_level_access_structure);
+        (2, s_authorizations_v0); (3, s_authorizations_v1); (4, s_authorizations_v2)].
+Definition s_level1_update :=
+  SSum [(0, s_higher_level_access_structure); (1, s_authorizations_v0);
+        (2, s_authorizations_v1); (3, s_authorizations_v2)].
+
+(** ArInfo (id/types.rs): non-zero identity, three u32-length strings, elgamal key.  As update
+    payload (tag 12) it is framed by a u32 byte length that must be consumed exactly. *)
+Definition s_string_u32 := SRefine (POpaque K_UTF8) (SBytes BE 4 4294967295).
+Definition s_description := STuple [s_string_u32; s_string_u32; s_string_u32].
+Definition s_ar_info := STuple [SRefine (PGe 1) SU32; s_description; SOpaque 48 K_ELGAMAL_PK].
+Definition s_add_anonymity_revoker := SFramed SU32 [] s_ar_info.
+
+Definition update_payload_alts_all : list (N * schema) :=
+  update_payload_alts ++ [(10, s_root_update); (11, s_level1_update); (12, s_add_anonymity_revoker)].
+Definition s_update_payload := SSum update_payload_alts_all.
 
 (** ** BlockItem<EncodedPayload>.  Tag 1 (credential deployment) is not modelled; tag 3
     (AccountTransactionV1) is written by the encoder and -- since the fix commit recorded in
@@ -221,7 +253,8 @@ Definition chain_schema_table : list (N * schema) :=
    (31, s_update_header); (32, s_update_instruction_signature); (33, s_update_instruction);
    (34, s_update_payload); (35, s_block_item); (36, s_leverage_factor); (37, s_mint_distribution_v0);
    (38, s_pool_parameters); (39, s_timeout_parameters); (40, s_threshold_u8);
-   (41, s_transaction_fee_distribution); (42, s_gas_rewards); (43, s_update_keys_threshold);
+   (41, s_transaction_fee_distribution); (42, s_gas_rewards); (43, s_update_keys_threshold); (44, s_access_structure); (45, s_higher_level_access_structure);
+   (46, s_authorizations_v0); (47, s_root_update); (48, s_level1_update); (49, s_ar_info);
    (* the pre-fix ConfigureBaker decoder, used only to characterise finding F4 *)
    (100, s_configure_baker_prefix)].
 
